@@ -228,6 +228,15 @@ Theorem C16_unregistered_never_completes :
 Proof. exact unregistered_never_completes. Qed.
 Print Assumptions C16_unregistered_never_completes.
 
+(* once its context is cancelled, an accept returns in five steps of its own,
+   from any configuration (no other thread is needed) *)
+Theorem C16_cancelled_accept_returns :
+  forall hr asecs csecs g a,
+    acancel (acc g a) = true ->
+    apc (acc (lrun hr asecs csecs g [LA a; LA a; LCancelled a; LA a; LA a]) a) = ADone.
+Proof. exact cancelled_accept_returns. Qed.
+Print Assumptions C16_cancelled_accept_returns.
+
 (* ------------------------------------------------------------------ *)
 (* (v) key material                                                    *)
 (* ------------------------------------------------------------------ *)
